@@ -11,7 +11,8 @@ Acpi == {[kind |-> "acpi", hid |-> h, uid |-> u] : h \in {<<208, 65, 3, 10>>, <<
 (* partition format (MBR / GPT / other) and signature type (none / 32-bit / GUID) are independent fields *)
 Hd == {[kind |-> "hd", part |-> p, start |-> s, size |-> z, sig |-> sg, format |-> f, sigtype |-> st] :
          sg \in {"g1", "z0"},       \* z0: a signature whose first bytes are small (leading zero digits in its text)
-         p \in {1, 128}, s \in {0, 2048}, z \in {1, 1024000}, f \in {1, 2, 3}, st \in {0, 1, 2}}
+         p \in {1, 128}, s \in {0, 2048, -2}, z \in {1, 1024000, -1}, f \in {1, 2, 3}, st \in {0, 1, 2}}
+      \* (start -2 and size -1 stand for 2^63 and 2^64 - 1: unsigned 64-bit fields with the top bit set; TLC's integers are 32 bits wide)
 (* long names: a file-path node of 4 + 2(n+1) bytes crosses 256 at n = 125 (node length needs its high byte) *)
 Long(n) == [k \in 1..n |-> 97 + (k % 26)]
 File == {[kind |-> "file", path |-> p] : p \in {<<92, 69, 70, 73>>, <<92>>, <<65, 32, 19968>>, <<128512>>, <<>>, <<92, 49, 48, 48, 37, 92, 97>>, <<37, 115, 37, 100, 37>>, <<92, 65281, 32896, 511, 46, 101>>, Long(124), Long(125), Long(126), Long(300)}}
